@@ -1,0 +1,631 @@
+//go:build verif
+
+package goja
+
+// Verification hooks and read-only accessors used by the runtime monitors in /verif.
+// Compiled only with `-tags verif`; the normal build uses the no-ops in verif_off.go.
+
+import (
+	"fmt"
+	"reflect"
+	"sort"
+	"sync/atomic"
+
+	"github.com/dop251/goja/unistring"
+)
+
+// VerifFuelExhausted is the panic value raised by the step hook when the instruction budget set
+// with VerifSetFuel is exceeded. It is deliberately not an *InterruptedError.
+type VerifFuelExhausted struct{ Steps int64 }
+
+func (e *VerifFuelExhausted) Error() string {
+	return fmt.Sprintf("verif: fuel exhausted after %d instructions", e.Steps)
+}
+
+// VerifAssertion is the panic value raised by a failed white-box assertion (ptr bounds, resume offsets).
+type VerifAssertion struct {
+	Hook string
+	Msg  string
+}
+
+func (e *VerifAssertion) Error() string { return "verif assertion [" + e.Hook + "]: " + e.Msg }
+
+// VerifJobEvent is one promise job queue event: Kind is 'e' (enqueue id), 'r' (run id), 'd' (N jobs dropped), 'i' (idle, queue drained).
+type VerifJobEvent struct {
+	Kind byte
+	ID   int64
+}
+
+type verifState struct {
+	steps    atomic.Int64
+	fuel     int64
+	stepAt   int64
+	stepFn   func()
+	cover    map[reflect.Type]struct{}
+	stepEach func(steps int64)
+
+	jobSeq    int64
+	jobTrace  bool
+	jobEvents []VerifJobEvent
+
+	arrToSparse, arrToDense int64
+
+	ptrCount    int64
+	ptrMinSlack int64
+	ptrViol     int64
+
+	resumeCount int64
+
+	points map[string]func()
+}
+
+// global counters (atomic) for violations seen by assertion hooks, readable even if the panic was swallowed.
+var verifAssertionsFailed atomic.Int64
+
+func VerifAssertionsFailed() int64 { return verifAssertionsFailed.Load() }
+
+func verifStep(vm *vm) {
+	s := &vm.verif
+	n := s.steps.Add(1)
+	if s.cover != nil {
+		s.cover[reflect.TypeOf(vm.prg.code[vm.pc])] = struct{}{}
+	}
+	if s.stepEach != nil {
+		s.stepEach(n)
+	}
+	if n == s.stepAt && s.stepFn != nil {
+		f := s.stepFn
+		s.stepFn = nil
+		f()
+	}
+	if s.fuel > 0 && n > s.fuel {
+		s.fuel = 0
+		panic(&VerifFuelExhausted{Steps: n})
+	}
+}
+
+// VerifSteps returns the number of VM instructions dispatched so far by this runtime (safe to call from other goroutines).
+func VerifSteps(r *Runtime) int64 { return r.vm.verif.steps.Load() }
+
+// VerifSetFuel makes the VM panic with *VerifFuelExhausted once the instruction counter exceeds n (0 = unlimited).
+// n is absolute (compare VerifSteps).
+func VerifSetFuel(r *Runtime, n int64) { r.vm.verif.fuel = n }
+
+// VerifAtStep arranges for f to be called (once) on the owning goroutine just before the instruction whose
+// ordinal is n (absolute, 1-based) is executed, after the interrupt flag was polled for that instruction.
+func VerifAtStep(r *Runtime, n int64, f func()) {
+	r.vm.verif.stepAt = n
+	r.vm.verif.stepFn = f
+}
+
+// VerifEachStep installs a callback called before every instruction (nil to remove).
+func VerifEachStep(r *Runtime, f func(steps int64)) { r.vm.verif.stepEach = f }
+
+// VerifCoverInstr enables/disables recording of the set of executed instruction types.
+func VerifCoverInstr(r *Runtime, on bool) {
+	if on {
+		if r.vm.verif.cover == nil {
+			r.vm.verif.cover = make(map[reflect.Type]struct{})
+		}
+	} else {
+		r.vm.verif.cover = nil
+	}
+}
+
+// VerifInstrSet returns the sorted names of instruction types executed since VerifCoverInstr(r, true).
+func VerifInstrSet(r *Runtime) []string {
+	res := make([]string, 0, len(r.vm.verif.cover))
+	for t := range r.vm.verif.cover {
+		res = append(res, t.String())
+	}
+	sort.Strings(res)
+	return res
+}
+
+func verifPtr(dataLen, off, size int) {
+	c := atomic.AddInt64(&verifPtrCount, 1)
+	_ = c
+	if off < 0 || (off+size > dataLen && off != dataLen) {
+		verifAssertionsFailed.Add(1)
+		atomic.AddInt64(&verifPtrViol, 1)
+		panic(&VerifAssertion{Hook: "ptr", Msg: fmt.Sprintf("typed array element access at byte offset %d size %d outside buffer of %d bytes", off, size, dataLen)})
+	}
+	slack := int64(dataLen - off - size)
+	for {
+		cur := atomic.LoadInt64(&verifPtrMinSlack)
+		if slack >= cur || atomic.CompareAndSwapInt64(&verifPtrMinSlack, cur, slack) {
+			break
+		}
+	}
+}
+
+var (
+	verifPtrCount    int64
+	verifPtrViol     int64
+	verifPtrMinSlack int64 = 1 << 62
+)
+
+// VerifPtrStats returns (number of ptr() calls, minimum (len - off - size) seen, violations).
+func VerifPtrStats() (count, minSlack, violations int64) {
+	return atomic.LoadInt64(&verifPtrCount), atomic.LoadInt64(&verifPtrMinSlack), atomic.LoadInt64(&verifPtrViol)
+}
+
+func verifJob(r *Runtime, job func()) func() {
+	s := &r.vm.verif
+	s.jobSeq++
+	id := s.jobSeq
+	if !s.jobTrace {
+		return job
+	}
+	s.jobEvents = append(s.jobEvents, VerifJobEvent{'e', id})
+	return func() {
+		s.jobEvents = append(s.jobEvents, VerifJobEvent{'r', id})
+		job()
+	}
+}
+
+func verifJobsIdle(r *Runtime) {
+	s := &r.vm.verif
+	if s.jobTrace {
+		s.jobEvents = append(s.jobEvents, VerifJobEvent{'i', int64(len(r.jobQueue))})
+	}
+}
+
+func verifJobsDropped(r *Runtime, n int) {
+	s := &r.vm.verif
+	if s.jobTrace {
+		s.jobEvents = append(s.jobEvents, VerifJobEvent{'d', int64(n)})
+	}
+}
+
+// VerifTraceJobs switches promise-job event recording on/off.
+func VerifTraceJobs(r *Runtime, on bool) { r.vm.verif.jobTrace = on }
+
+// VerifJobEvents returns and clears the recorded job events.
+func VerifJobEvents(r *Runtime) []VerifJobEvent {
+	ev := r.vm.verif.jobEvents
+	r.vm.verif.jobEvents = nil
+	return ev
+}
+
+func verifResumed(vm *vm, ctx *execCtx) {
+	vm.verif.resumeCount++
+	n := len(ctx.tryStack)
+	base := len(vm.tryStack) - n
+	for i := 0; i < n; i++ {
+		tf := &vm.tryStack[base+i]
+		if int(tf.sp) > vm.sp || tf.sp < 0 || int(tf.iterLen) > len(vm.iterStack) || int(tf.refLen) > len(vm.refStack) || int(tf.callStackLen) > len(vm.callStack) {
+			verifAssertionsFailed.Add(1)
+			panic(&VerifAssertion{Hook: "resume", Msg: fmt.Sprintf("resumed try frame %d out of range: sp=%d (vm.sp=%d) iterLen=%d/%d refLen=%d/%d callStackLen=%d/%d",
+				i, tf.sp, vm.sp, tf.iterLen, len(vm.iterStack), tf.refLen, len(vm.refStack), tf.callStackLen, len(vm.callStack))})
+		}
+	}
+}
+
+// VerifResumeCount returns the number of generator/async resumptions performed.
+func VerifResumeCount(r *Runtime) int64 { return r.vm.verif.resumeCount }
+
+func verifArrayTransition(o *Object, toSparse bool) {
+	if o == nil || o.runtime == nil {
+		return
+	}
+	if toSparse {
+		o.runtime.vm.verif.arrToSparse++
+	} else {
+		o.runtime.vm.verif.arrToDense++
+	}
+}
+
+// VerifArrayTransitions returns the numbers of dense->sparse and sparse->dense array storage switches.
+func VerifArrayTransitions(r *Runtime) (toSparse, toDense int64) {
+	return r.vm.verif.arrToSparse, r.vm.verif.arrToDense
+}
+
+func verifPoint(r *Runtime, name string) {
+	if r == nil {
+		return
+	}
+	if f := r.vm.verif.points[name]; f != nil {
+		f()
+	}
+}
+
+// VerifSetPoint installs a callback at a named verifPoint (nil removes it).
+func VerifSetPoint(r *Runtime, name string, f func()) {
+	if r.vm.verif.points == nil {
+		r.vm.verif.points = make(map[string]func())
+	}
+	if f == nil {
+		delete(r.vm.verif.points, name)
+	} else {
+		r.vm.verif.points[name] = f
+	}
+}
+
+// ---- read-only accessors ----
+
+// VerifVMState is a snapshot of the VM registers that must be at their idle values whenever control is outside the Runtime.
+type VerifVMState struct {
+	SP, SB, PC                               int
+	PrgNil                                   bool
+	CallStack, TryStack, IterStack, RefStack int
+	StashGlobal, PrivEnvNil                  bool
+	Jobs                                     int
+	Interrupted                              bool
+	StackNil                                 bool
+	StackLen                                 int
+}
+
+func VerifState(r *Runtime) VerifVMState {
+	vm := r.vm
+	return VerifVMState{
+		SP: vm.sp, SB: vm.sb, PC: vm.pc,
+		PrgNil:      vm.prg == nil,
+		CallStack:   len(vm.callStack),
+		TryStack:    len(vm.tryStack),
+		IterStack:   len(vm.iterStack),
+		RefStack:    len(vm.refStack),
+		StashGlobal: vm.stash == &r.global.stash,
+		PrivEnvNil:  vm.privEnv == nil,
+		Jobs:        len(r.jobQueue),
+		Interrupted: atomic.LoadUint32(&vm.interrupted) != 0,
+		StackNil:    vm.stack == nil,
+		StackLen:    len(vm.stack),
+	}
+}
+
+// Idle reports whether the registers named by the runtime's own normal return paths are at their idle values.
+// (pc, prg, result and the stack slice are deliberately not part of this.)
+func (s VerifVMState) Idle() (bool, string) {
+	switch {
+	case s.SP != 0:
+		return false, fmt.Sprintf("sp=%d", s.SP)
+	case s.SB != -1:
+		return false, fmt.Sprintf("sb=%d", s.SB)
+	case s.CallStack != 0:
+		return false, fmt.Sprintf("callStack=%d", s.CallStack)
+	case s.TryStack != 0:
+		return false, fmt.Sprintf("tryStack=%d", s.TryStack)
+	case s.IterStack != 0:
+		return false, fmt.Sprintf("iterStack=%d", s.IterStack)
+	case s.RefStack != 0:
+		return false, fmt.Sprintf("refStack=%d", s.RefStack)
+	case !s.StashGlobal:
+		return false, "stash!=global"
+	case !s.PrivEnvNil:
+		return false, "privEnv!=nil"
+	case s.Jobs != 0:
+		return false, fmt.Sprintf("jobQueue=%d", s.Jobs)
+	}
+	return true, ""
+}
+
+// VerifRepr names the internal representation of a value.
+func VerifRepr(v Value) string {
+	switch x := v.(type) {
+	case nil:
+		return "nil"
+	case valueInt:
+		return "int"
+	case valueFloat:
+		return "float"
+	case asciiString:
+		return "ascii"
+	case unicodeString:
+		return "unicode"
+	case *importedString:
+		if x.scanned {
+			if x.u != nil {
+				return "imported-unicode"
+			}
+			return "imported-ascii"
+		}
+		return "imported-unscanned"
+	case valueBool:
+		return "bool"
+	case valueNull:
+		return "null"
+	case valueUndefined:
+		return "undefined"
+	case *Symbol:
+		return "symbol"
+	case *valueBigInt:
+		return "bigint"
+	case *Object:
+		return "object"
+	}
+	return fmt.Sprintf("%T", v)
+}
+
+// VerifNumberCanonical reports whether a number value is in canonical representation: a valueFloat must not hold
+// a value that floatToInt accepts, a valueInt must lie within ±2^53.
+func VerifNumberCanonical(v Value) bool {
+	switch x := v.(type) {
+	case valueInt:
+		return int64(x) >= -maxInt && int64(x) <= maxInt
+	case valueFloat:
+		_, ok := floatToInt(float64(x))
+		return !ok
+	}
+	return true
+}
+
+// VerifStringWellFormed checks the normal form of a string value: asciiString holds only bytes < 0x80;
+// unicodeString starts with the BOM and contains at least one non-ASCII unit; a scanned importedString's cache agrees with a rescan.
+func VerifStringWellFormed(v Value) (bool, string) {
+	switch x := v.(type) {
+	case asciiString:
+		for i := 0; i < len(x); i++ {
+			if x[i] >= 0x80 {
+				return false, "asciiString with byte >= 0x80"
+			}
+		}
+	case unicodeString:
+		if len(x) == 0 || x[0] != unistring.BOM {
+			return false, "unicodeString without BOM"
+		}
+		for _, c := range x[1:] {
+			if c >= 0x80 {
+				return true, ""
+			}
+		}
+		return false, "unicodeString with ASCII-only content"
+	case *importedString:
+		if x.scanned {
+			u := unistring.Scan(x.s)
+			if (u == nil) != (x.u == nil) || len(u) != len(x.u) {
+				return false, "importedString scan cache mismatch"
+			}
+			for i := range u {
+				if u[i] != x.u[i] {
+					return false, "importedString scan cache mismatch"
+				}
+			}
+		}
+	}
+	return true, ""
+}
+
+// VerifArrayInfo describes the internal storage of an Array object.
+type VerifArrayInfo struct {
+	Kind           string // "dense", "sparse", or "" if not a standard array
+	Length         uint32
+	Slots          int // len(values) or len(items)
+	ObjCount       int // dense only
+	PropValueCount int
+	ActualNonHoles int // recount: non-nil values / items
+	ActualProps    int // recount: *valueProperty entries
+	SortedUnique   bool
+	MaxIdx         int64 // -1 if empty
+	GateStd        bool  // checkStdArrayObj-condition (dense): propValueCount==0 && length==len(values) && objCount==length
+	LengthWritable bool
+	Extensible     bool
+}
+
+func VerifArray(o *Object) VerifArrayInfo {
+	var info VerifArrayInfo
+	info.MaxIdx = -1
+	switch a := o.self.(type) {
+	case *arrayObject:
+		info.Kind = "dense"
+		info.Length = a.length
+		info.Slots = len(a.values)
+		info.ObjCount = a.objCount
+		info.PropValueCount = a.propValueCount
+		info.SortedUnique = true
+		for i, v := range a.values {
+			if v != nil {
+				info.ActualNonHoles++
+				info.MaxIdx = int64(i)
+				if _, ok := v.(*valueProperty); ok {
+					info.ActualProps++
+				}
+			}
+		}
+		info.GateStd = a.propValueCount == 0 && a.length == uint32(len(a.values)) && uint32(a.objCount) == a.length
+		info.LengthWritable = a.lengthProp.writable
+		info.Extensible = a.extensible
+	case *sparseArrayObject:
+		info.Kind = "sparse"
+		info.Length = a.length
+		info.Slots = len(a.items)
+		info.PropValueCount = a.propValueCount
+		info.SortedUnique = true
+		for i, it := range a.items {
+			if i > 0 && a.items[i-1].idx >= it.idx {
+				info.SortedUnique = false
+			}
+			if it.value != nil {
+				info.ActualNonHoles++
+				if _, ok := it.value.(*valueProperty); ok {
+					info.ActualProps++
+				}
+			}
+			if int64(it.idx) > info.MaxIdx {
+				info.MaxIdx = int64(it.idx)
+			}
+		}
+		info.LengthWritable = a.lengthProp.writable
+		info.Extensible = a.extensible
+	}
+	return info
+}
+
+// VerifMapInfo is the result of a structural walk over the orderedMap behind a Map or Set (or an object's symbol table).
+type VerifMapInfo struct {
+	Found    bool
+	Size     int
+	ListLive int // entries reachable from iterFirst via iterNext
+	HashLive int // entries reachable from the hash table
+	Problems []string
+}
+
+func verifWalkOrderedMap(m *orderedMap) VerifMapInfo {
+	info := VerifMapInfo{Found: true, Size: m.size}
+	seen := make(map[*mapEntry]bool)
+	var prev *mapEntry
+	for e := m.iterFirst; e != nil; e = e.iterNext {
+		if seen[e] {
+			info.Problems = append(info.Problems, "cycle or duplicate in iteration list")
+			break
+		}
+		seen[e] = true
+		info.ListLive++
+		if e.key == nil {
+			info.Problems = append(info.Problems, "removed entry still linked in iteration list")
+		}
+		if e.iterPrev != prev {
+			info.Problems = append(info.Problems, "iterPrev does not match predecessor")
+		}
+		prev = e
+	}
+	if m.iterLast != prev {
+		info.Problems = append(info.Problems, "iterLast is not the last list entry")
+	}
+	hseen := make(map[*mapEntry]bool)
+	for h, e := range m.hashTable {
+		if e == nil {
+			info.Problems = append(info.Problems, "nil bucket head")
+		}
+		for ; e != nil; e = e.hNext {
+			if hseen[e] {
+				info.Problems = append(info.Problems, "entry reachable twice from hash table")
+				break
+			}
+			hseen[e] = true
+			info.HashLive++
+			if e.key == nil {
+				info.Problems = append(info.Problems, "removed entry still in hash table")
+				continue
+			}
+			if !seen[e] {
+				info.Problems = append(info.Problems, "hash table entry missing from iteration list")
+			}
+			k := e.key
+			if k.hash(m.hash) != h {
+				info.Problems = append(info.Problems, "entry stored under a hash different from its key's hash")
+			}
+		}
+	}
+	if info.ListLive != m.size {
+		info.Problems = append(info.Problems, fmt.Sprintf("size=%d but %d entries in iteration list", m.size, info.ListLive))
+	}
+	if info.HashLive != m.size {
+		info.Problems = append(info.Problems, fmt.Sprintf("size=%d but %d entries in hash table", m.size, info.HashLive))
+	}
+	return info
+}
+
+// VerifMap walks the ordered map behind a Map or Set object; with symTable=true, the symbol-property table of any object
+// backed by baseObject.
+func VerifMap(o *Object, symTable bool) VerifMapInfo {
+	if symTable {
+		if bo := verifBaseObject(o); bo != nil && bo.symValues != nil {
+			return verifWalkOrderedMap(bo.symValues)
+		}
+		return VerifMapInfo{}
+	}
+	switch x := o.self.(type) {
+	case *mapObject:
+		return verifWalkOrderedMap(x.m)
+	case *setObject:
+		return verifWalkOrderedMap(x.m)
+	}
+	return VerifMapInfo{}
+}
+
+func verifBaseObject(o *Object) *baseObject {
+	switch x := o.self.(type) {
+	case *baseObject:
+		return x
+	case *mapObject:
+		return &x.baseObject
+	case *setObject:
+		return &x.baseObject
+	case *arrayObject:
+		return &x.baseObject
+	case *funcObject:
+		return &x.baseObject
+	}
+	return nil
+}
+
+// VerifTypedArrayInfo exposes the internal geometry of a typed array.
+type VerifTypedArrayInfo struct {
+	Found                    bool
+	Length, Offset, ElemSize int
+	BufLen                   int
+	Detached                 bool
+}
+
+func VerifTypedArray(o *Object) VerifTypedArrayInfo {
+	if ta, ok := o.self.(*typedArrayObject); ok {
+		return VerifTypedArrayInfo{
+			Found: true, Length: ta.length, Offset: ta.offset, ElemSize: ta.elemSize,
+			BufLen: len(ta.viewedArrayBuf.data), Detached: ta.viewedArrayBuf.detached,
+		}
+	}
+	return VerifTypedArrayInfo{}
+}
+
+// VerifRegexpEngine tells which engine a RegExp object compiled to: "re2", "regexp2" or "" if not a RegExp.
+func VerifRegexpEngine(o *Object) string {
+	if ro, ok := o.self.(*regexpObject); ok && ro.pattern != nil {
+		switch {
+		case ro.pattern.regexpWrapper != nil && ro.pattern.regexp2Wrapper != nil:
+			return "both"
+		case ro.pattern.regexpWrapper != nil:
+			return "re2"
+		case ro.pattern.regexp2Wrapper != nil:
+			return "regexp2"
+		}
+	}
+	return ""
+}
+
+// VerifRegexpStandard reports the fast-path flag of a RegExp object.
+func VerifRegexpStandard(o *Object) bool {
+	if ro, ok := o.self.(*regexpObject); ok {
+		return ro.standard
+	}
+	return false
+}
+
+// VerifProgramDump returns the disassembly of a compiled program (evidence that two variants compiled differently).
+func VerifProgramDump(p *Program) string {
+	var b []byte
+	p.dumpCode(func(format string, args ...interface{}) {
+		b = append(b, fmt.Sprintf(format, args...)...)
+		b = append(b, '\n')
+	})
+	return string(b)
+}
+
+// VerifOrderedMap is a direct driver for the orderedMap structure (used by the Map/Set monitor to bypass the script front-end).
+type VerifOrderedMap struct{ m *orderedMap }
+
+func VerifNewOrderedMap(r *Runtime) *VerifOrderedMap {
+	return &VerifOrderedMap{m: newOrderedMap(r.getHash())}
+}
+func (m *VerifOrderedMap) Set(k, v Value)      { m.m.set(k, v) }
+func (m *VerifOrderedMap) Get(k Value) Value   { return m.m.get(k) }
+func (m *VerifOrderedMap) Has(k Value) bool    { return m.m.has(k) }
+func (m *VerifOrderedMap) Remove(k Value) bool { return m.m.remove(k) }
+func (m *VerifOrderedMap) Clear()              { m.m.clear() }
+func (m *VerifOrderedMap) Size() int           { return m.m.size }
+func (m *VerifOrderedMap) Walk() VerifMapInfo  { return verifWalkOrderedMap(m.m) }
+
+type VerifOrderedMapIter struct{ it *orderedMapIter }
+
+func (m *VerifOrderedMap) NewIter() *VerifOrderedMapIter {
+	return &VerifOrderedMapIter{it: m.m.newIter()}
+}
+
+// Next returns the next live entry's key and value, or ok=false when exhausted.
+func (i *VerifOrderedMapIter) Next() (k, v Value, ok bool) {
+	e := i.it.next()
+	if e == nil {
+		return nil, nil, false
+	}
+	return e.key, e.value, true
+}
